@@ -230,7 +230,10 @@ type lnode struct {
 
 func (c *lnode) GetLabel() label.TargetLabel { *c.labels++; return c.lbl }
 
-func conflicts(graphSpec string) string {
+// mode "alt": every second node is an output-declaring Target; mode "ends": only the first (bottom) and the last
+// (top) node are, every node in between is a counting node WITHOUT outputs (aggregate / lint style targets and
+// aliases look like that to detectOutputConflicts): memoisation that depends on a node having outputs shows here.
+func conflicts(graphSpec string, mode string) string {
 	specs := w.SplitComma(graphSpec)
 	labels, sel := 0, 0
 	lbl := func(i int) label.TargetLabel { return label.TargetLabel{Package: "g", Name: fmt.Sprintf("n%d", i)} }
@@ -243,7 +246,7 @@ func conflicts(graphSpec string) string {
 				deps = append(deps, lbl(j))
 			}
 		}
-		if i%2 == 0 {
+		if (mode == "alt" && i%2 == 0) || (mode == "ends" && (i == 0 || i == len(specs)-1)) {
 			nodeMap[lbl(i)] = &model.Target{Label: lbl(i), Command: "true", Dependencies: deps,
 				Outputs: []model.Output{model.NewOutput("file", "same.out")}}
 		} else {
@@ -308,7 +311,9 @@ func main() {
 		case "cost":
 			return cost(f[1], f[2], f[3])
 		case "conflicts":
-			return conflicts(f[1])
+			return conflicts(f[1], "alt")
+		case "conflicts-ends":
+			return conflicts(f[1], "ends")
 		}
 		return "unknown-command " + f[0]
 	})
